@@ -103,6 +103,41 @@ fn canon_oracle(k: &MKey, lf: bool) -> Result<Vec<u8>, (String, String)> {
     Ok(bytes)
 }
 
+/// A hand-made key whose parameters repeat a label cannot be encoded, but canonicalising it still
+/// "changes nothing else": the multiset of (label, value) pairs is what it was.
+fn dup_params_case(ctx: &mut Ctx) {
+    let n = 2 + ctx.rng.below(5);
+    let mut params: Vec<(MLabel, Item)> = (0..n).map(|i| (MLabel::Int(-1 - (ctx.rng.below(4) as i64) * 3), Item::int(i as i64))).collect();
+    let pal = extra_palette();
+    params.push((pal[ctx.rng.below(pal.len())].clone(), Item::Null));
+    let d = params[ctx.rng.below(params.len())].clone();
+    let at = ctx.rng.below(params.len() + 1);
+    params.insert(at, (d.0, Item::text("again")));
+    params.retain(|(l, _)| !matches!(l, MLabel::Int(i) if (0..=5).contains(i)));
+    let k = key_with(ctx.rng.below(16) as u64, params);
+    let ck = match capi::b_key(&k) {
+        Some(c) => c,
+        None => return,
+    };
+    for lf in [false, true] {
+        ctx.eval();
+        ctx.count("dup-params-keys");
+        let mut c1 = ck.clone();
+        if guard(|| c1.canonicalize(ordering(lf))).is_err() {
+            ctx.count("dup-params-canonicalize-refused");
+            continue;
+        }
+        let pairs = |x: &coset::CoseKey| {
+            let mut v: Vec<(Vec<u8>, Vec<u8>)> = capi::v_key(x, &mut Notes(vec![])).params.iter().map(|(l, v)| (rcbor::det(&l.item()), rcbor::det(v))).collect();
+            v.sort();
+            v
+        };
+        if pairs(&c1) != pairs(&ck) {
+            ctx.violation(&format!("C20/content-changed/{}/repeated-label", if lf { "length-first" } else { "lexicographic" }), "canonicalize changed the multiset of (label, value) pairs of a key whose parameters repeat a label".into(), J::obj(vec![("key", J::Str(format!("{:?}", k).chars().take(600).collect()))]));
+        }
+    }
+}
+
 fn check_key(ctx: &mut Ctx, k: &MKey) {
     for lf in [false, true] {
         ctx.eval();
@@ -160,6 +195,9 @@ impl Check for C20 {
     }
     fn run_case(&self, ctx: &mut Ctx, phase: usize, idx: u64) {
         let pal = extra_palette();
+        if phase == 1 && idx % 4 == 0 {
+            dup_params_case(ctx);
+        }
         match phase {
             0 | 1 => {
                 let n = if phase == 0 { 1 + ctx.rng.below(5) } else { 6 + ctx.rng.below(3) };
